@@ -20,12 +20,16 @@ D(p, s, n) == [p |-> p, s |-> s, n |-> n]
 (* operators that are prefix and infix, priorities 1 and 1200, removal and re-declaration of     *)
 (* predefined operators                                                                          *)
 DeclsQuick == { D(200, "xfy", "^^"), D(100, "xf", "!!"), D(700, "xfx", "abc"), D(700, "fy", "f"),
-                D(1, "fx", "@"), D(1200, "xfx", "@"), D(0, "fy", "-") }
+                D(1, "fx", "@"), D(1200, "xfx", "@"), D(0, "fy", "-"),
+                (* a user-defined right-associative operator that shares its priority with predefined left-associative ones *)
+                (* (+ and - at 500, * at 400): an operand of the parent's own priority must be bracketed on the left of a   *)
+                (* yfx operator when it is an xfy term, and on the right when it is a yfx term                              *)
+                D(500, "xfy", "^^"), D(400, "xfy", "abc") }
 DeclsThorough == DeclsQuick \cup { D(1200, "xfx", "*"), D(200, "yf", "abc"), D(0, "xfx", "=") }
 Decls  == IF Tier = "quick" THEN DeclsQuick ELSE DeclsThorough
 MaxLen == IF Tier = "quick" THEN 2 ELSE 3
 
-Prios == {0, 1, 200, 700, 1200}
+Prios == {0, 1, 200, 400, 500, 700, 1200}
 AllDecls == {D(p, s, n) : p \in Prios, s \in Specifiers, n \in PoolNames}
 
 (* operators whose terms are enumerated: the pool and the predefined operators with special      *)
